@@ -12,7 +12,7 @@ open Apollo.Rowan hiding Str
 open Apollo.Lex hiding Str
 
 theorem xs_of_xc {α : Type} {m : PI α} (h : XC anyTok m) : XS Fresh m :=
-  fun s r R ar aR sr sR h1 h2 h3 g _ hr hR hb => h s r R ar aR sr sR h1 h2 h3 g trivial hr hR hb
+  fun s r R ar aR sr sR h1 h2 h3 g _ hr hR => h s r R ar aR sr sR h1 h2 h3 g trivial hr hR
 
 theorem plain_expectEndOfInput : Plain expectEndOfInput := by
   unfold expectEndOfInput
@@ -97,7 +97,7 @@ theorem parse_cross (e : Entry) (r R : Nat) (src : Str) (hrR : r ≤ R) (hfree :
   have hf : Fresh (entryStart e src) := by cases e <;> exact fun _ => rfl
   have hc0 : (entryStart e src).recCur ≤ r := by cases e <;> exact Nat.zero_le _
   have hh0 : (entryStart e src).recHigh ≤ r := by cases e <;> exact Nat.zero_le _
-  rcases xs_entry e (fuelFor src) (entryStart e src) r R () () sr sR hrR hc0 hh0 g hf hr hR hfree
+  rcases xs_entry e (fuelFor src) (entryStart e src) r R () () sr sR hrR hc0 hh0 g hf hr hR
     with ⟨t, e1, e2, _, th, _, _⟩ | ⟨d1, d2, d3⟩
   · subst e1 e2
     refine ⟨?_, ?_⟩
